@@ -529,6 +529,30 @@ class Randomizer(RandIF):
             debug=0,
             lint=0,
             solve_fail_debug=0):
+        try:
+            Randomizer._do_randomize(
+                randstate,
+                srcinfo,
+                field_model_l,
+                constraint_l,
+                debug,
+                lint,
+                solve_fail_debug)
+        finally:
+            # Fields are only random for the duration of the call in 
+            # which they participate, whether it succeeds or fails
+            for f in field_model_l:
+                f.set_used_rand(False, 0)
+    
+    @staticmethod
+    def _do_randomize(
+            randstate,
+            srcinfo : SourceInfo,
+            field_model_l : List[FieldModel],
+            constraint_l : List[ConstraintModel] = None,
+            debug=0,
+            lint=0,
+            solve_fail_debug=0):
         if profile_on():
             solve_info = SolveInfo()
             solve_info.totaltime = time.time()
